@@ -38,24 +38,29 @@ type workerViolation struct {
 }
 
 type workerOut struct {
-	Violations []workerViolation `json:"violations"`
-	Models     []map[string]any  `json:"models"`
-	Skipped    []string          `json:"skipped_models"`
-	Values     int64             `json:"values"`
-	Pairs      int64             `json:"pair_values"`
-	Parses     int64             `json:"parses"`
-	Points     int64             `json:"insertion_points"`
-	Insertions int64             `json:"insertions"`
-	Distinct   int               `json:"distinct_encodings"`
-	Phase1Done bool              `json:"phase1_complete"`
-	Phase2Done bool              `json:"phase2_complete"`
-	Phase2Run  bool              `json:"phase2_run"`
-	UnitsTotal int64             `json:"units_total"`
-	UnitsDone  int64             `json:"units_done"`
-	Samples    []string          `json:"samples"`
-	MaxDev     int               `json:"max_deviations"`
-	MaxDepth   int               `json:"max_struct_depth_for_deviations"`
-	Raw        int64             `json:"raw_violations"`
+	Violations  []workerViolation `json:"violations"`
+	Models      []map[string]any  `json:"models"`
+	Skipped     []string          `json:"skipped_models"`
+	Values      int64             `json:"values"`
+	Pairs       int64             `json:"pair_values"`
+	Parses      int64             `json:"parses"`
+	Points      int64             `json:"insertion_points"`
+	Insertions  int64             `json:"insertions"`
+	SegParses   int64             `json:"segmented_parses"`
+	SegAllCuts  int64             `json:"values_with_every_2_segment_cut"`
+	SegDirected int64             `json:"values_with_boundary_directed_cuts"`
+	Seg3        int64             `json:"values_with_every_3_segment_cut_pair"`
+	SegLimits   string            `json:"segmentation_bounds"`
+	Distinct    int               `json:"distinct_encodings"`
+	Phase1Done  bool              `json:"phase1_complete"`
+	Phase2Done  bool              `json:"phase2_complete"`
+	Phase2Run   bool              `json:"phase2_run"`
+	UnitsTotal  int64             `json:"units_total"`
+	UnitsDone   int64             `json:"units_done"`
+	Samples     []string          `json:"samples"`
+	MaxDev      int               `json:"max_deviations"`
+	MaxDepth    int               `json:"max_struct_depth_for_deviations"`
+	Raw         int64             `json:"raw_violations"`
 }
 
 func env(k, def string) string {
@@ -252,7 +257,7 @@ func main() {
 
 	// 3+4. run worker and regeneration concurrently
 	thorough := rep.Thorough()
-	budget := 75
+	budget := 95
 	if thorough {
 		budget = 24 * 60
 	}
@@ -333,39 +338,44 @@ func main() {
 		samples = []string{"(none)"}
 	}
 	cov := report.Coverage{
-		"evaluations":        wout.Values + wout.Pairs + wout.Insertions + int64(len(sc.GenDirs)*genRuns),
-		"distinct_nontrivial": wout.Distinct,
-		"rule":               "distinct (model, encoded byte string) pairs produced by the real encoders for the <=1-deviation values (FNV-64 of the bytes); every one of them was decoded again and had an unknown element inserted at every boundary",
-		"samples":            samples,
-		"exhaustive":         exhaustive,
-		"models_discovered":  len(sc.Models),
-		"models_driven":      len(wout.Models),
-		"packages":           len(pkgs),
-		"models_per_package": pkgList,
-		"generated_files":    sc.Files,
-		"skipped_models":     skipped,
-		"values_le1_deviation": wout.Values,
-		"values_2_deviations":  wout.Pairs,
-		"parses":               wout.Parses,
-		"insertion_points":     wout.Points,
-		"insertions":           wout.Insertions,
-		"max_deviations":       wout.MaxDev,
+		"evaluations":                            wout.Values + wout.Pairs + wout.Insertions + wout.SegParses + int64(len(sc.GenDirs)*genRuns),
+		"distinct_nontrivial":                    wout.Distinct,
+		"rule":                                   "distinct (model, encoded byte string) pairs produced by the real encoders for the <=1-deviation values (FNV-64 of the bytes); every one of them was decoded again and had an unknown element inserted at every boundary",
+		"samples":                                samples,
+		"exhaustive":                             exhaustive,
+		"models_discovered":                      len(sc.Models),
+		"models_driven":                          len(wout.Models),
+		"packages":                               len(pkgs),
+		"models_per_package":                     pkgList,
+		"generated_files":                        sc.Files,
+		"skipped_models":                         skipped,
+		"values_le1_deviation":                   wout.Values,
+		"values_2_deviations":                    wout.Pairs,
+		"parses":                                 wout.Parses,
+		"insertion_points":                       wout.Points,
+		"insertions":                             wout.Insertions,
+		"segmented_parses":                       wout.SegParses,
+		"values_with_every_2_segment_cut":        wout.SegAllCuts,
+		"values_with_boundary_directed_cuts":     wout.SegDirected,
+		"values_with_every_3_segment_cut_pair":   wout.Seg3,
+		"segmentation_bounds":                    wout.SegLimits,
+		"max_deviations":                         wout.MaxDev,
 		"max_struct_depth_for_nested_deviations": wout.MaxDepth,
-		"units_total":          wout.UnitsTotal,
-		"units_done":           wout.UnitsDone,
+		"units_total":                            wout.UnitsTotal,
+		"units_done":                             wout.UnitsDone,
 		"phase1_le1_deviation_all_clauses_complete": wout.Phase1Done,
 		"phase2_pairs_len_rt_run":                   wout.Phase2Run,
 		"phase2_pairs_len_rt_complete":              wout.Phase2Done,
-		"raw_violating_cases":  wout.Raw,
-		"regeneration":         gres,
-		"regeneration_dirs":    len(sc.GenDirs),
-		"generated_files_without_directive": orphan,
-		"per_model":            wout.Models,
+		"raw_violating_cases":                       wout.Raw,
+		"regeneration":                              gres,
+		"regeneration_dirs":                         len(sc.GenDirs),
+		"generated_files_without_directive":         orphan,
+		"per_model":                                 wout.Models,
 	}
 	assumptions := []string{
 		"values are bounded: base in {all-minimal, all-typical, all-maximal} plus <=1 (quick) / <=2 (thorough) single-field deviations drawn from fixed boundary domains; deviations inside nested models up to the stated depth",
 		"only encodings produced by the real encoders are decoded (with one unknown element inserted); hostile inputs are C04",
-		"decoding uses the BufferReader over the joined wire; WireReader segmentations are C03",
+		"decoding uses the BufferReader over the joined wire as the reference; C13.seg additionally decodes through enc.WireReader (Encode()'s own segmentation, every 2-segment cut of short encodings, boundary-directed cuts of long ones, every 3-segment cut pair of very short ones) and demands the same value",
 		"signature slots are filled by the harness with exactly estLen bytes; models nested in another model cannot receive encoder inputs (estLen, needDigest), so nested signed packets are encoded unsigned",
 		"values compare equal up to what the wire cannot express: nil vs empty sequence/map, Wire segmentation, nil vs empty component value",
 		"pairs of deviations (thorough) are checked for C13.len and C13.rt only; insertion clauses use the <=1-deviation values",
